@@ -53,8 +53,12 @@ def coq_stage(prop, tier):
     uses = EXTRA_IMPORTS.get(prop, "").split()
     rc0, out0 = sh("python3 tools/py2coq.py --no-sd 2>&1", 120, VERIF)
     rc0s, out0s = sh("python3 tools/py2coq_sd.py 2>&1", 120, VERIF)
-    translator_ok = (rc0 == 0 or "PySrc" not in uses) and (rc0s == 0 or "PySrcSd" not in uses)
-    info["translators"] = {"py2coq": rc0, "py2coq_sd": rc0s, "modules_imported_by_this_property": uses}
+    rc0c, out0c = sh("python3 tools/py2coq_core.py 2>&1", 120, VERIF)
+    uses_helpers = any(u in ("PySrc", "PySrcKey", "PySrcPlace") for u in uses)
+    uses_sd = any(u in ("PySrcSd", "PySrcSdTarget") for u in uses)
+    translator_ok = (rc0 == 0 or not uses_helpers) and (rc0s == 0 or not uses_sd) and (rc0c == 0 or "PySrcCore" not in uses)
+    out0s += out0c
+    info["translators"] = {"py2coq": rc0, "py2coq_sd": rc0s, "py2coq_core": rc0c, "modules_imported_by_this_property": uses}
     if tier == "thorough":
         sh("make -C coq clean >/dev/null 2>&1; rm -f coq/props/*.vo coq/theories/*.vo", 120, VERIF)
     # whole project with -k (keeps everything that can be built fresh), then this property's file and the extraction
